@@ -215,42 +215,7 @@ func headRecs(r *Round, n int) []Rec {
 // mergeEarlier folds the coverage that an earlier engine (ipamsim) wrote for the same property into this run, so
 // that the property's single evidence file describes both halves.
 func mergeEarlier(run *evid.Run, prop string) {
-	dir := evid.VerifDir
-	if d := os.Getenv("VERIF_OUT_DIR"); d != "" {
-		dir = d
-	}
-	data, err := os.ReadFile(filepath.Join(dir, "evidence", prop+".json"))
-	if err != nil {
-		run.Inconclusive("merge requested but the earlier engine's evidence is missing")
-		return
-	}
-	var ev struct {
-		Coverage   map[string]interface{} `json:"coverage"`
-		Violations int                    `json:"violations"`
-		Engine     string                 `json:"engine"`
-		WallS      float64                `json:"wall_s"`
-	}
-	if err := json.Unmarshal(data, &ev); err != nil {
-		run.Inconclusive("merge requested but the earlier engine's evidence does not parse")
-		return
-	}
-	run.Set("earlier_engine", map[string]interface{}{"engine": ev.Engine, "coverage": ev.Coverage, "violations": ev.Violations, "wall_s": ev.WallS})
-	if v, ok := ev.Coverage["evaluations"].(float64); ok {
-		run.Count("earlier_engine_evaluations", int64(v))
-		run.ExtraEvaluations += int64(v)
-	}
-	if v, ok := ev.Coverage["distinct_nontrivial"].(float64); ok {
-		run.Count("earlier_engine_distinct_nontrivial", int64(v))
-		run.ExtraNontrivial += int64(v)
-	}
-	if sm, ok := ev.Coverage["samples"].([]interface{}); ok {
-		for i, x := range sm {
-			if i < 2 {
-				run.Sample(map[string]interface{}{"from_engine": ev.Engine, "sample": x})
-			}
-		}
-	}
-	run.Rule = "ENGINE 1 (" + ev.Engine + "): " + fmt.Sprint(ev.Coverage["rule"]) + " || ENGINE 2 (ipamconc): " + run.Rule + " || evaluations and distinct_nontrivial are the sums over both engines (fingerprints of different engines never coincide)"
+	run.MergeEarlier("ipamconc")
 }
 
 // ---------------- C19: race detector ----------------
